@@ -213,7 +213,12 @@ func SortedEvents(inputs ...<-chan Event) chan Event {
 // - "changed title from **fourth issue** to **fourth issue{+ changed+}**"
 // - "changed title from **fourth issue{- changed-}** to **fourth issue**"
 func getNewTitle(diff string) string {
-	newTitle := strings.Split(diff, "** to **")[1]
+	parts := strings.Split(diff, "** to **")
+	if len(parts) < 2 {
+		// not the expected "changed title from **a** to **b**" format: keep the text as it is
+		return diff
+	}
+	newTitle := parts[1]
 	newTitle = strings.Replace(newTitle, "{+", "", -1)
 	newTitle = strings.Replace(newTitle, "+}", "", -1)
 	return strings.TrimSuffix(newTitle, "**")
